@@ -7,9 +7,12 @@
    (both inclusions, any CFG, any start block, any assumption map); (2) every inductive
    table — in particular the engine's, which the check validates on every case — contains
    the least solution; (3) no extrapolation happens while the iteration count is within
-   widening_delay.  What is corresponded (not proved): the implementation's result and
-   the engine model's result both EQUAL the specification on every generated case
-   (C06_engine_statement below is the full claim for the model). *)
+   widening_delay; (4) the engine model's result EQUALS the specification for every
+   well-formed ordering and every start block of it (C06_engine_is_least_solution ...,
+   from the engine's soundness Fix/EngineSound.v and the bound from below
+   Fix/EngineBelow.v).  What is corresponded (not proved): the implementation's result
+   equals the specification on every generated case.  C06_engine_statement below (no
+   hypothesis on the ordering) is refuted: C06_engine_statement_needs_wto_hypotheses. *)
 From Coq Require Import List Bool Arith NArith.
 From CrabV Require Import Fix.Wto Fix.Engine Fix.EngineBelow Fix.Kleene Fix.KleeneSound Fix.EngineFS Fix.EngineCheck
      Fix.EngineFSSound Fix.WtoCheck Fix.WtoSound Fix.WtoRoot Fix.EngineRel Fix.EngineSound Fix.EngineFSExact.
@@ -77,7 +80,8 @@ Theorem C06_engine_exact_when_accepted :
     (smem s (e_post N e n) = true <-> ReachPost F n s).
 Proof. exact fs_engine_exact. Qed.
 
-(* full claim for the engine model (corresponded, not proved) *)
+(* the claim without hypotheses on the ordering w: false (refuted below, w = []); with a
+   well-formed ordering containing the start block it is C06_engine_is_least_solution *)
 Definition C06_engine_statement : Prop :=
   forall S F w delay desc use_asm fuel rounds e t,
     in_range F ->
